@@ -70,7 +70,12 @@ fn run_probe(ctx: &Ctx, w: &Written, tag: &str) -> Result<Value, String> {
         let path = ctx.scratch.join(format!("probe-{}.cfg", tag));
         let mut txt = String::new();
         for (k, v) in &w.pairs {
-            txt.push_str(&format!("{}: {}\n", k, v));
+            if k.starts_with("__raw__") {
+                txt.push_str(v);
+                txt.push('\n');
+            } else {
+                txt.push_str(&format!("{}: {}\n", k, v));
+            }
         }
         std::fs::write(&path, txt).map_err(|e| e.to_string())?;
         cmd.args(["cfgprobe", path.to_str().unwrap()]);
@@ -253,7 +258,10 @@ fn judge_refusal(ctx: &Ctx, out: &mut Out, what: &str, w: Written, seed: &[u8], 
             }
         }
     } else {
-        if refused {
+        if refused && what.starts_with("second-document") {
+            // refusing a multi-document file is one of the two acceptable outcomes
+            out.obs("bad_config_refused", 1);
+        } else if refused {
             out.violation(&format!("C16 {} refused-valid {}", src, what), &format!("{}: a documented valid configuration is refused ({})", what, probe["refused"]), desc);
         } else {
             out.obs("good_config_accepted", 1);
@@ -343,6 +351,16 @@ pub fn run(ctx: &Ctx, out: &mut Out) {
         let p = with(base.clone(), "persistence_directory", dir.to_str().unwrap());
         extra.push(("persistence_directory".into(), Written { pairs: with(p, "client_stats", "on"), via_env }, false, Some(("persistence_directory", json!(dir.to_str().unwrap())))));
         if !via_env {
+            // a second YAML document: what is written after the separator must be honoured or the
+            // file refused -- never silently dropped
+            let mut p = base.clone();
+            p.push(("__raw__sep".into(), "---".into()));
+            p.push(("fault_percentage".into(), "90".into()));
+            extra.push(("second-document-with-out-of-range-value".into(), Written { pairs: p, via_env }, true, None));
+            let mut p = base.clone();
+            p.push(("__raw__sep".into(), "---".into()));
+            p.push(("batch_size".into(), "7".into()));
+            extra.push(("second-document-with-batch_size-7".into(), Written { pairs: p, via_env }, false, Some(("batch_size", json!(7)))));
             extra.push(("unknown-key".into(), Written { pairs: with(base.clone(), "no_such_setting", "1"), via_env }, true, None));
             extra.push(("unknown-key-typo".into(), Written { pairs: with(base.clone(), "batchsize", "8"), via_env }, true, None));
         }
@@ -389,11 +407,109 @@ pub fn run(ctx: &Ctx, out: &mut Out) {
             }
         }
     }
+    effective_on_running_server(ctx, out, &mut rng, &seed);
     out.sample(json!({"key": "batch_size", "written": 300, "source": "file", "expected": "refused (documented range 1-64)"}));
     out.sample(json!({"key": "num_workers", "written": 3, "source": "env", "expected": "num_workers getter == 3"}));
     out.floor("probe_runs", 100);
+    out.floor("running_server_spot_checks", 6);
     out.floor("out_of_range_refused", 20);
     out.floor("in_range_accepted", 30);
     out.floor("bad_config_refused", 10);
     out.floor("good_config_accepted", 10);
+}
+
+
+/// Spot checks on the RUNNING binary: the getters can be right while the server runs with
+/// something else. num_workers = number of distinct worker-N threads; batch_size = size of the
+/// first signed batch when more than batch_size requests were queued while the process was
+/// stopped (SIGSTOP), and no batch larger than it.
+fn effective_on_running_server(ctx: &Ctx, out: &mut Out, rng: &mut Rng, seed: &[u8]) {
+    use crate::refimpl::crypto::Proto;
+    use crate::refimpl::verify::{verify_response, Opts, ReqView};
+    let pk = RefKey::from_seed(seed).public();
+    let plan: Vec<(&str, u32)> = vec![("num_workers", 1), ("num_workers", 3), ("num_workers", 19), ("batch_size", 1), ("batch_size", 2), ("batch_size", 5), ("batch_size", 64), ("num_workers", 17), ("batch_size", 33)];
+    for (i, (key, v)) in plan.iter().enumerate() {
+        if i as u64 % ctx.nshards != ctx.shard {
+            continue;
+        }
+        let via_env = i % 2 == 1;
+        let mut cfg = SrvCfg::new(free_port(false), seed);
+        cfg.via_env = via_env;
+        match *key {
+            "num_workers" => cfg.num_workers = Some(*v),
+            _ => {
+                cfg.batch_size = Some(*v);
+                cfg.num_workers = Some(1);
+            }
+        }
+        let Ok(mut sp) = spawn_server(&ctx.bins, &cfg, &ctx.scratch, &format!("eff{}", i), None) else { continue };
+        if sp.wait_ready(&pk, Duration::from_secs(10)).is_err() {
+            out.inconclusive("spot-check server not ready");
+            continue;
+        }
+        std::thread::sleep(Duration::from_millis(300));
+        let desc = json!({"kind":"running-server-spot-check","key":key,"written":v,"source": if via_env {"env"} else {"file"}});
+        out.obs("running_server_spot_checks", 1);
+        out.case(fnv64(format!("eff{}{}{}", key, v, via_env).as_bytes()), true);
+        if *key == "num_workers" {
+            let names: std::collections::HashSet<String> = sp.thread_names().into_iter().filter(|n| n.starts_with("worker-")).collect();
+            if names.len() != *v as usize {
+                out.violation(
+                    &format!("C16 {} num_workers {}->{} on-running-server", if via_env { "env" } else { "file" }, v, names.len()),
+                    &format!("num_workers={} written, the running server has {} distinct worker threads", v, names.len()),
+                    desc.clone(),
+                );
+            }
+        } else {
+            let bs = *v as usize;
+            let burst = (2 * bs + 3).min(80);
+            let addr: std::net::SocketAddr = format!("127.0.0.1:{}", sp.cfg.port).parse().unwrap();
+            let socks: Vec<std::net::UdpSocket> = (0..burst).map(|_| std::net::UdpSocket::bind("127.0.0.1:0").unwrap()).collect();
+            sp.signal(libc::SIGSTOP);
+            std::thread::sleep(Duration::from_millis(10));
+            let mut reqs = Vec::new();
+            for s in &socks {
+                let (pkt, nonce) = make_request(rng, Proto::Classic, None);
+                let _ = s.send_to(&pkt, addr);
+                reqs.push((pkt, nonce));
+            }
+            sp.signal(libc::SIGCONT);
+            let mut groups: std::collections::HashMap<Vec<u8>, usize> = std::collections::HashMap::new();
+            let mut order: Vec<Vec<u8>> = Vec::new();
+            let mut got = 0;
+            for (s, (pkt, nonce)) in socks.iter().zip(reqs.iter()) {
+                s.set_read_timeout(Some(Duration::from_millis(2000))).unwrap();
+                let mut buf = vec![0u8; 4096];
+                if let Ok((n, _)) = s.recv_from(&mut buf) {
+                    let view = ReqView { proto: Proto::Classic, packet: pkt, nonce: nonce.clone() };
+                    if let Ok(ver) = verify_response(&view, &buf[..n], &pk, Opts { strict: true }) {
+                        got += 1;
+                        if !groups.contains_key(&ver.srep) {
+                            order.push(ver.srep.clone());
+                        }
+                        *groups.entry(ver.srep).or_insert(0) += 1;
+                    }
+                }
+            }
+            if got == burst {
+                let largest = groups.values().copied().max().unwrap_or(0);
+                // requests are read in arrival order, so the first socket's reply belongs to the first batch
+                let first = order.first().map(|s| groups[s]).unwrap_or(0);
+                out.obs("running_server_bursts_grouped", 1);
+                if largest > bs || first != bs.min(burst) {
+                    out.violation(
+                        &format!("C16 {} batch_size {}->{} on-running-server", if via_env { "env" } else { "file" }, bs, first),
+                        &format!("batch_size={} written; {} requests queued while the server was stopped were signed in batches {:?} (first batch {}, largest {})", bs, burst, order.iter().map(|s| groups[s]).collect::<Vec<_>>(), first, largest),
+                        desc.clone(),
+                    );
+                }
+            } else {
+                out.inconclusive("spot-check burst not fully answered (C18's business)");
+            }
+        }
+        sp.signal(libc::SIGTERM);
+        if sp.wait_exit(Duration::from_secs(5)).is_none() {
+            sp.kill();
+        }
+    }
 }
